@@ -914,6 +914,8 @@ def module_rules(rnd, uses=None, own='P', style=0):
     body.append(A(uses, x) if rnd.random() < 0.5 else A(uses, y))
   if rnd.random() < 0.4:
     body.append(Cmp(rnd.choice(['<', '!=', '>=']), x, y))
+  if style == 1:
+    body.append(Cmp('>', Bin('+', x, y), Num(0)))    # makes this module differ from its namesake
   rules.append(Rule(own, [x], distinct=rnd.random() < 0.3, body=Conj(body)))
   return rules
 
@@ -928,7 +930,7 @@ def c12_pairs(seed):
   A = gen.A
   x, y = Var('x'), Var('y')
   layout = ['chain', 'diamond', 'same_private', 'shared_base', 'alias', 'two_roots', 'self_apply',
-            'shared_base', 'diamond', 'module_functor'][seed % 10]
+            'shared_base', 'roots_shadow', 'module_functor'][seed % 10]
   files = {}
   flat = []
   roots = ('',)
@@ -1001,6 +1003,21 @@ def c12_pairs(seed):
     main_imports = [('m2', 'P2', None)]
     flat = (flat_module(r1, 'M1x_') + flat_module(r2, 'M2x_', {'P1': 'M1x_P1'}) +
             [rename_rule_preds(r, {'P2': 'M2x_P2'}) for r in main_rules])
+  elif layout == 'roots_shadow':
+    # the same module path exists under both import roots with different contents: the first
+    # root that has the file wins (parse.ParseImport walks the roots in order)
+    ra = module_rules(rnd, own='P1')
+    rb = module_rules(rnd, own='P1', style=1)
+    r2 = module_rules(rnd, uses='P1', own='P2')
+    files['root1/lib/m1.l'] = render_module(ra, [])
+    files['root2/lib/m1.l'] = render_module(rb, [])
+    files['root2/m2.l'] = render_module(r2, [('lib.m1', 'P1', None)])
+    roots = ('root1', 'root2') if rnd.random() < 0.5 else ('root2', 'root1')
+    win = ra if roots[0] == 'root1' else rb
+    main_rules = [Rule('T', [x], body=Disj([A('P2', x), A('P1', x)]))]
+    main_imports = [('m2', 'P2', None), ('lib.m1', 'P1', None)]
+    flat = (flat_module(win, 'M1x_') + flat_module(r2, 'M2x_', {'P1': 'M1x_P1'}) +
+            [rename_rule_preds(r, {'P2': 'M2x_P2', 'P1': 'M1x_P1'}) for r in main_rules])
   elif layout == 'module_functor':
     # a functor application inside an imported module (made predicates get the file prefix too),
     # next to same-named predicates in main
